@@ -1,7 +1,7 @@
 (* C03 — proofs about C03/Model.v (and the regenerated C03/Gen.v). *)
 From Coq Require Import ZArith Znumtheory List Bool Lia ZifyBool Ascii String DecimalString.
 From Cffi Require Export C03.MemProofs C03.StoreProofs.
-From Cffi Require Import C03.CExpr C03.CExprFacts C03.Gen C03.Model.
+From Cffi Require Import C03.CExpr C03.CExprFacts C03.IR C03.Gen C03.Model C03.Interp.
 Import ListNotations.
 Open Scope Z_scope.
 
@@ -269,4 +269,52 @@ Proof.
   destruct (in_range T v) eqn:Hr.
   - destruct Hv as [-> Hbv]. rewrite Hbv. rewrite read_encode by assumption. reflexivity.
   - rewrite Hv. rewrite HbE. rewrite read_encode by assumption. reflexivity.
+Qed.
+
+(* ------------------------------------------------------------------ the source's own statements *)
+
+(* the regenerated statements of convert_from_object's integer branches, executed, are the hand
+   model — for every type, value and target content (no hypothesis) *)
+Theorem gen_store_refines T v data : gen_store T v data = convert_from_object_int T v data.
+Proof.
+  unfold gen_store, convert_from_object_int.
+  destruct (isigned T).
+  - unfold store_signed_prog. cbn [exec_store guard_on negb run_conv].
+    destruct (as_longlong v) as [x|e|]; cbn [s_err s_val s_buf s_data s_set s_get]; try reflexivity.
+    cbn [forallb atom_holds s_get s_val s_buf andb].
+    destruct (negb (x =? read_raw_signed (write_raw (isize T) x))); reflexivity.
+  - unfold store_unsigned_prog. cbn [exec_store guard_on negb run_conv].
+    destruct (as_ulonglong_strict v) as [x|e|]; cbn [s_err s_val s_buf s_data s_set s_get]; try reflexivity.
+    destruct (ibool T); cbn [negb exec_store guard_on forallb atom_holds s_get s_set s_val s_buf s_data s_err andb].
+    + destruct (1 <? x); reflexivity.
+    + destruct (negb (x =? read_raw_unsigned (write_raw (isize T) x))); reflexivity.
+Qed.
+
+(* "the target is written only after the range check succeeded": syntactically, in both branches
+   the write to `data` is followed by nothing that can fail, and no test reads `data` *)
+Lemma gen_store_writes_after_checks :
+  data_written_last store_signed_prog = true /\ data_written_last store_unsigned_prog = true.
+Proof. split; reflexivity. Qed.
+
+(* ... hence, semantically: whenever the executed source statements do not succeed, the target
+   is untouched (all T, v, data) *)
+Theorem gen_store_failure_pure T v data : wf_ity T ->
+  fst (gen_store T v data) <> Ok tt -> snd (gen_store T v data) = data.
+Proof.
+  intros Hwf. rewrite gen_store_refines, store_exact by exact Hwf.
+  destruct (in_range T v); cbn [fst snd]; [congruence|reflexivity].
+Qed.
+
+(* the regenerated narrow-result blocks of convert_from_object_fficallback are the hand model *)
+Theorem gen_fficallback_refines T v result :
+  gen_fficallback T v result = convert_from_object_fficallback T v result.
+Proof.
+  unfold gen_fficallback, convert_from_object_fficallback.
+  destruct (isize T <? 8)%nat; [|reflexivity].
+  destruct (isigned T).
+  - unfold fcb_signed_prog. cbn [exec_fcb f_res f_val f_err f_env]. unfold tail_conv.
+    destruct (convert_from_object_int T v (firstn (isize T) result)) as [[u|e|] low];
+      cbn [exec_fcb f_res f_val f_err f_env run_conv]; try reflexivity.
+    unfold as_longlong. destruct ((- 2 ^ 63 <=? v) && (v <? 2 ^ 63)); cbn [exec_fcb f_res f_val f_err f_env]; reflexivity.
+  - unfold fcb_zeroext_prog. cbn [exec_fcb f_res f_val f_err f_env]. reflexivity.
 Qed.
